@@ -170,6 +170,16 @@ func Construct(o Op) interface{} {
 		return calendar.NewSolarFromYmd(o.a(0), o.a(1), o.a(2)).GetSalaryRate()
 	case "week":
 		return calendar.NewSolarWeekFromYmd(o.a(0), o.a(1), o.a(2), o.a(3)).Next(o.a(4), o.a(5) != 0)
+	case "week0":
+		return calendar.NewSolarWeekFromYmd(o.a(0), o.a(1), o.a(2), o.a(3))
+	case "smonth0":
+		return calendar.NewSolarMonthFromYm(o.a(0), o.a(1))
+	case "season0":
+		return calendar.NewSolarSeasonFromYm(o.a(0), o.a(1))
+	case "halfyear0":
+		return calendar.NewSolarHalfYearFromYm(o.a(0), o.a(1))
+	case "syear0":
+		return calendar.NewSolarYearFromYear(o.a(0))
 	case "smonth":
 		return calendar.NewSolarMonthFromYm(o.a(0), o.a(1)).Next(o.a(2))
 	case "season":
